@@ -2,6 +2,7 @@
 import TornadoModel.C02.Lemmas
 import TornadoModel.C02.Framing
 import TornadoModel.C02.Final
+import TornadoModel.C02.Writes
 namespace TornadoModel.C02
 open TornadoModel.C02.Spec
 
@@ -134,6 +135,26 @@ theorem nobody_wire_is_head (rq : Req) (prog : List Op) (hrq : reqOK rq = true)
     (hnb : (rq.method == .head || noBodyStatus code) = true) :
     wire (run rq prog).conn = headBytes code hs :=
   nobody_Done rq _ (run_Done rq hrq prog hops) code hs hh hnb
+
+/-- **body_is_writes**: the link from the wire back to the *program text*.  For every exception-free ("clean")
+    program — `opClean`: body-carrying 3-digit statuses, header values passing `_VALID_HEADER_CHARS` (and
+    `HTTPHeaders.add`'s checks), token names other than `Transfer-Encoding` / `Content-Length` — on a non-HEAD
+    request without an `If-None-Match` hit, whatever the interleaving of writes and flushes and whichever
+    delimitation the framework picks (automatic Content-Length, chunked, close), the strict client reads
+    **exactly one response, nothing left over**, whose status is the one in force at the first flush/finish
+    (`headStatus`) and whose body is the concatenation of the program's writes up to and including the first
+    `finish` (`bodyOf`). -/
+theorem body_is_writes (rq : Req) (prog : List Op) (hrq : reqOK rq = true) (hm : rq.method ≠ .head)
+    (hinm : rq.inmMatch = false) (hops : ∀ op ∈ prog, opClean op = true) :
+    ∃ hs d, clientParse (rq.method == .head) (wire (run rq prog).conn) (run rq prog).conn.closed
+      = .ok (⟨headStatus 200 prog, reason (headStatus 200 prog), hs, bodyOf prog, d⟩, []) :=
+  run_clean_parse rq hrq hm hinm prog hops
+
+/-! non-vacuity of `body_is_writes`: a program mixing every clean op kind, and what the two functions say of it -/
+example : ∀ op ∈ [Op.write [97], .setStatus 404, .setHeader nCT [120], .addHeader nEtag [34, 34], .clearHeader nCT,
+      .flush, .write [98], .finish (some [99]), .write [100]], opClean op = true := by decide
+example : bodyOf [Op.write [97], .setStatus 404, .flush, .write [98], .finish (some [99]), .write [100]] = [97, 98, 99]
+    ∧ headStatus 200 [Op.write [97], .setStatus 404, .flush, .setStatus 500, .finish none] = 404 := by decide
 
 /-! non-vacuity of the side conditions and of each outcome of `response_wellframed_exact` -/
 example : reqOK { method := .get, v11 := true, conn := .absent } = true
